@@ -281,7 +281,7 @@ func (x *hpRun) history(r *h.Report, ops []string) bool {
 						changedHandles++
 					}
 				}
-				if p := t.partialPart(w); !w.isFull() && (p == "selector" || p == "idless" || strings.Contains(w.deletePart(), "el")) {
+				if p := t.partialPart(w); t.viaEngine(w) && (p == "selector" || p == "idless" || strings.Contains(w.deletePart(), "el")) {
 					inplaceOps++
 				}
 				t.c11Handles(r, done, w, hs)
@@ -494,6 +494,12 @@ func hpProbeFlags(t *hpType) []hpProbe {
 	v, _ = run([][]int{c0}, w)
 	ps = append(ps, hpProbe{name: "emptySelPanics", ops: []string{tyOp, hpSet(c0), w.line()}, on: v == hpPanic,
 		detail: "selector update with an empty list: " + hpVerdictS(v)})
+	// C04 clause 1b: the in-place paths copy the flag a remote write carries
+	c2 := t.it(2, 1, 0)
+	w = &hpWrite{remote: true, persist: true, items: [][]int{t.it(-1, 0)}, fpk: "E", fdk: "N"}
+	_, after = run([][]int{c0, c2}, w)
+	ps = append(ps, hpProbe{name: "inplaceAltersFlag", ops: []string{tyOp, hpSet(c0, c2), w.line()}, on: len(after) == 2 && after[0][t.flag] != 1,
+		detail: "data after an identifier-less remote write that carries a flag: " + hpListS(after)})
 	return ps
 }
 
@@ -887,6 +893,11 @@ func TestHeap(t *testing.T) {
 	for _, p := range hpProbeFlags(lc) {
 		r.SetFlag(p.name, p.on, p.ops, p.detail)
 		cfg = append(cfg, strconv.Itoa(h.B2i(p.on)))
+		if p.name == "fastpathRemote" {
+			for _, ty := range types {
+				ty.remoteFullViaEngine = !p.on
+			}
+		}
 	}
 	x.cfg = strings.Join(cfg, " ")
 	if a := x.d.Ask(x.cfg); a != "ok" {
@@ -952,7 +963,7 @@ func TestHeap(t *testing.T) {
 		}
 	}
 	r.Info["representative_pool"] = len(pool)
-	per := h.Scale(40, 700)
+	per := h.Scale(40, 500)
 	for _, fn := range pool {
 		g := &hpGen{rng: rng, t: types[fn]}
 		for i := 0; i < per; i++ {
@@ -961,7 +972,7 @@ func TestHeap(t *testing.T) {
 			}
 		}
 	}
-	perRest := h.Scale(4, 200)
+	perRest := h.Scale(4, 150)
 	for _, fn := range rest {
 		g := &hpGen{rng: rng, t: types[fn]}
 		for i := 0; i < perRest; i++ {
